@@ -145,31 +145,67 @@ Proof.
   apply ix_sort_intv_nonneg; exact E.
 Qed.
 
-(** ** sort.Search on a list sorted by distinct numbers finds the bin *)
+(** ** sort.Search (binary search as coded) on a list sorted by distinct keys finds the element *)
 Section Search.
-  Context {B : Type} (num : B -> Z) (search : list B -> Z -> option B).
-  Hypothesis search_nil : forall b, search [] b = None.
-  Hypothesis search_cons : forall x t b,
-      search (x :: t) b = if num x >=? b then (if num x =? b then Some x else None) else search t b.
+  Context {B : Type} (key : B -> Z) (d : B).
 
-  Lemma search_found bs x :
-    key_sorted num bs -> NoDup (map num bs) -> In x bs -> search bs (num x) = Some x.
+  Lemma sorted_nth_le l : key_sorted key l ->
+    forall i j, (i <= j)%nat -> (j < length l)%nat -> key (nth i l d) <= key (nth j l d).
   Proof.
-    induction bs as [|y t IH]; intros Hs Hnd Hin; [destruct Hin|].
-    rewrite search_cons. inversion Hs as [|? ? Hst Hall]; subst.
-    simpl in Hnd. inversion Hnd as [|? ? Hni Hnd']; subst.
-    destruct Hin as [->|Hin].
-    - destruct (num x >=? num x) eqn:E; [|lia]. rewrite Z.eqb_refl. reflexivity.
-    - assert (Hle : num y <= num x) by (rewrite Forall_forall in Hall; apply Hall; exact Hin).
-      assert (Hne : num y <> num x).
-      { intro Heq. apply Hni. rewrite Heq. apply in_map; exact Hin. }
-      destruct (num y >=? num x) eqn:E; [lia|]. apply IH; assumption.
+    induction l as [|x t IH]; intros Hs i j Hij Hj; [simpl in Hj; lia|].
+    inversion Hs as [|? ? Hst Hall]; subst. destruct i as [|i]; destruct j as [|j]; simpl; try lia.
+    - rewrite Forall_forall in Hall. apply Hall. apply nth_In. simpl in Hj. lia.
+    - apply IH; [exact Hst|lia|simpl in Hj; lia].
+  Qed.
+
+  Lemma nodup_nth_inj l : NoDup (map key l) ->
+    forall i j, (i < length l)%nat -> (j < length l)%nat -> key (nth i l d) = key (nth j l d) -> i = j.
+  Proof.
+    intros Hnd i j Hi Hj E.
+    apply (proj1 (NoDup_nth (map key l) (key d)) Hnd i j); try (rewrite map_length; assumption).
+    rewrite !(map_nth key). exact E.
+  Qed.
+
+  Lemma bs_go_finds l b p : key_sorted key l -> NoDup (map key l) ->
+    (p < length l)%nat -> key (nth p l d) = b ->
+    forall fuel i j, 0 <= i <= Z.of_nat p -> Z.of_nat p <= j <= zlen l -> j - i <= Z.of_nat fuel ->
+      ix_bs_go key d l b fuel i j = Z.of_nat p.
+  Proof.
+    intros Hs Hnd Hp Hb. induction fuel as [|f IH]; intros i j Hi Hj Hf; simpl.
+    - lia.
+    - destruct (i <? j) eqn:E; [|lia]. apply Z.ltb_lt in E.
+      rewrite Z.shiftr_div_pow2 by lia. change (2 ^ 1) with 2.
+      set (h := (i + j) / 2). assert (Hh : i <= h < j) by (unfold h; split; [apply Z.div_le_lower_bound|apply Z.div_lt_upper_bound]; lia).
+      assert (Hhl : (Z.to_nat h < length l)%nat) by (unfold zlen in Hj; lia).
+      destruct (key (nth (Z.to_nat h) l d) >=? b) eqn:E2.
+      + (* h >= p *)
+        assert (Z.of_nat p <= h).
+        { destruct (Z.le_gt_cases (Z.of_nat p) h) as [H|H]; [exact H|]. exfalso.
+          pose proof (sorted_nth_le l Hs (Z.to_nat h) p ltac:(lia) Hp) as Hle.
+          assert (key (nth (Z.to_nat h) l d) = key (nth p l d)) by lia.
+          apply nodup_nth_inj in H0; try assumption. lia. }
+        apply IH; lia.
+      + assert (h < Z.of_nat p).
+        { destruct (Z.lt_ge_cases h (Z.of_nat p)) as [H|H]; [exact H|]. exfalso.
+          pose proof (sorted_nth_le l Hs p (Z.to_nat h) ltac:(lia) Hhl) as Hle. lia. }
+        apply IH; lia.
+  Qed.
+
+  Lemma bsearch_finds l x : key_sorted key l -> NoDup (map key l) -> In x l ->
+    exists p, (p < length l)%nat /\ nth p l d = x /\ ix_bsearch key d l (key x) = Z.of_nat p.
+  Proof.
+    intros Hs Hnd Hin. destruct (In_nth l x d Hin) as (p & Hp & Hx). exists p. split; [exact Hp|]. split; [exact Hx|].
+    unfold ix_bsearch. apply (bs_go_finds l (key x) p Hs Hnd Hp); [rewrite Hx; reflexivity| | |]; unfold zlen; lia.
   Qed.
 End Search.
 
 Lemma ix_search_found bs x :
   key_sorted bnum bs -> NoDup (map bnum bs) -> In x bs -> ix_search bs (bnum x) = Some x.
-Proof. apply (search_found bnum ix_search); intros; reflexivity. Qed.
+Proof.
+  intros Hs Hnd Hin. destruct (bsearch_finds bnum (mkBin 0 []) bs x Hs Hnd Hin) as (p & Hp & Hx & Hb).
+  unfold ix_search. rewrite Hb. destruct (Z.of_nat p <? zlen bs) eqn:E; [|unfold zlen in E; lia].
+  rewrite Nat2Z.id, Hx, Z.eqb_refl. reflexivity.
+Qed.
 
 (** ** small list facts *)
 Lemma zlen_repeat {A} (x : A) n : zlen (repeat x n) = Z.of_nat n.
